@@ -148,7 +148,7 @@ func runControls(dir string) error {
 	}
 	// MODREF
 	var entries []*ssa.Function
-	for _, n := range []string{"GoodPure", "BadWritesArg", "GoodClone", "BadCloneShallowRows", "BadWritesGlobal"} {
+	for _, n := range []string{"GoodPure", "BadWritesArg", "GoodClone", "BadCloneShallowRows", "BadWritesGlobal", "GoodFreshNull", "BadSharedNull"} {
 		entries = append(entries, fns[n])
 	}
 	m := eng.NewModRef(p, entries)
@@ -164,6 +164,8 @@ func runControls(dir string) error {
 		}
 	}
 	expect("modref-globals", "BadWritesGlobal", gw)
+	expect("modref-result-globals", "GoodFreshNull", len(m.ResultGlobals(fns["GoodFreshNull"])) > 0)
+	expect("modref-result-globals", "BadSharedNull", len(m.ResultGlobals(fns["BadSharedNull"])) > 0)
 	// PANICREACH
 	for _, n := range []string{"GoodTotal", "BadReachesPanic"} {
 		reach := eng.ReachFrom(p, []*ssa.Function{fns[n]})
